@@ -193,6 +193,7 @@ func main() {
 
 	// ---- accessors (generated from the package-level variables of the files actually compiled) ----------
 	hasExpChain = !small && findMethod(cur["internal/field"], "expPMin3Div4")
+	expanderLenType = findExpander(cur[""])
 
 	for _, p := range pkgs {
 		vars := packageVars(cur[p.dir])
@@ -374,6 +375,70 @@ func packageVars(files map[string]string) []string {
 	return vars
 }
 
+// expanderLenType is the type of the length parameter of the root package's expandXMD, "" if there is no function
+// of the shape expandXMD([]byte, []byte, <integer type>) []byte.
+var expanderLenType string
+
+func findExpander(files map[string]string) string {
+	fset := token.NewFileSet()
+
+	isBytes := func(e ast.Expr) bool {
+		at, ok := e.(*ast.ArrayType)
+		if !ok || at.Len != nil {
+			return false
+		}
+
+		id, ok := at.Elt.(*ast.Ident)
+
+		return ok && id.Name == "byte"
+	}
+
+	for _, n := range sortedKeys(files) {
+		if ok, err := build.Default.MatchFile(filepath.Dir(files[n]), filepath.Base(files[n])); err == nil && !ok {
+			continue
+		}
+
+		f, err := parser.ParseFile(fset, files[n], nil, parser.SkipObjectResolution)
+		if err != nil {
+			continue
+		}
+
+		for _, d := range f.Decls {
+			fd, ok := d.(*ast.FuncDecl)
+			if !ok || fd.Recv != nil || fd.Name.Name != "expandXMD" || fd.Type.Results == nil || len(fd.Type.Results.List) != 1 ||
+				!isBytes(fd.Type.Results.List[0].Type) {
+				continue
+			}
+
+			var types []ast.Expr
+
+			for _, fl := range fd.Type.Params.List {
+				k := len(fl.Names)
+				if k == 0 {
+					k = 1
+				}
+
+				for i := 0; i < k; i++ {
+					types = append(types, fl.Type)
+				}
+			}
+
+			if len(types) != 3 || !isBytes(types[0]) || !isBytes(types[1]) {
+				continue
+			}
+
+			if id, ok := types[2].(*ast.Ident); ok {
+				switch id.Name {
+				case "uint", "int", "uint16", "uint32", "uint64", "int32", "int64", "uint8", "int16":
+					return id.Name
+				}
+			}
+		}
+	}
+
+	return ""
+}
+
 // hasExpChain is set when internal/field declares the method expPMin3Div4 (so that the accessor can expose it).
 var hasExpChain bool
 
@@ -412,6 +477,19 @@ func accessorSource(p pkgInfo, vars []string, verif string) []byte {
 		b.Write(t)
 	} else {
 		fmt.Fprintf(&b, "package %s\n\nimport \"fmt\"\n", p.name)
+	}
+
+	if p.dir == "" {
+		// the private expander, if the tree has one of the expected shape expandXMD([]byte, []byte, <integer>) []byte;
+		// a tree that restructures it loses only the direct expander sweep, not the checks through the exported API
+		if t := expanderLenType; t != "" {
+			b.WriteString("\n// VerifHasExpandXMD reports that the private expander is reachable.\nconst VerifHasExpandXMD = true\n")
+			b.WriteString("\n// VerifExpandXMD calls the private expander.\n")
+			fmt.Fprintf(&b, "func VerifExpandXMD(msg, dst []byte, length uint) []byte { return expandXMD(msg, dst, %s(length)) }\n", t)
+		} else {
+			b.WriteString("\n// VerifHasExpandXMD reports that this tree has no private expander of the expected shape.\nconst VerifHasExpandXMD = false\n")
+			b.WriteString("\n// VerifExpandXMD is a stub.\nfunc VerifExpandXMD(msg, dst []byte, length uint) []byte { return nil }\n")
+		}
 	}
 
 	if p.name == "field" && hasExpChain {
